@@ -25,6 +25,9 @@ KEY = "linear_scoring:linear_scoring"
 
 
 def run(P, R, tier):
+    from ..engines import dimrun
+    n, rets = dimrun.route(P, R, ["ls.norm", "ls.raw", "ls.machines"], rules=["DIM.", "EXT."], where_prefix=["linear_scoring:"])
+    R.floor("DIM/EXT obligations (linear scoring)", n, 6)
     f = P.func(KEY)
     R.analysed(f)
     du = get_defuse(f, P)
